@@ -9,7 +9,7 @@
     FindMissing call (any function: presence may change from call to call, calls
     may fail), [nth j gets] what Get(tree of output directory j) delivered. *)
 From BBS Require Import Common.Sx Complete.WireVisit Complete.WireVisitProofs Complete.Completeness
-  Complete.CompletenessProofs.
+  Complete.CompletenessProofs Run.R13 Run.R13Proofs.
 
 (** Result returned => every referenced digest (output files, stdout, stderr,
     tree and root-directory digests, every file inside the delivered trees, and
@@ -172,3 +172,59 @@ Example wire_example :
   /\ wire_visit_all [8; 1]%N None = ([], WErr 3)
   /\ wire_visit_all [10; 255; 255; 255; 255; 255; 255; 255; 255; 127]%N None = ([], WErr 3).
 Proof. vm_compute. repeat split; reflexivity. Qed.
+
+(** ---- The monitor used on implementation traces never fires on the model.
+
+    [mon13] reads an observation [(code same calls env)]; the model predicts
+    [code] and [calls] from the environment [env] ([run13 env]).  For every
+    environment and every observation that the judge accepts as agreeing with
+    the model, all six clauses of the monitor are silent.  [env_wf env] is
+      - batch size >= 1,
+      - maxtree >= 0 or at least one output directory,
+      - for every Tree stream of [env]: whenever the model's byte-level visit of
+        the delivered bytes succeeds, the harness's own parse of the same bytes
+        (recorded in [env]) is flagged clean, and each root/children field it
+        lists is found under its payload offset and is a field the visitor
+        hands over ([stream_consistent]).
+    harness/c13.go rejects batch < 1 and maxtree < 0 and computes [env] itself
+    from the bytes the real CAS reader delivered; the examples below show that
+    the monitor does fire on the model when one of the hypotheses is dropped. *)
+Theorem monitor_silent_on_agreeing_observation : forall inp obs,
+  env_wf (env_of obs) ->
+  sx_eqb (run13 (env_of obs)) (L [sx_nth obs 0; sx_nth obs 2]) = true ->
+  mon13 inp obs = [].
+Proof. exact mon13_silent_on_agreeing. Qed.
+Print Assumptions monitor_silent_on_agreeing_observation.
+
+Theorem monitor_silent_on_model : forall inp env same,
+  env_wf env -> mon13 inp (model_obs env same) = [].
+Proof. exact mon13_silent_on_model. Qed.
+Print Assumptions monitor_silent_on_model.
+
+(** Each hypothesis is needed (environments the harness cannot produce):
+    batch 0 -> clause 5; maxtree -1 without output directory -> clause 4; a
+    stream flagged unclean although the visit succeeds -> clause 3; a listed
+    field that is never visited, or listed twice under one offset -> clause 1. *)
+Example monitor_domain_boundary :
+  mon13 (L []) (model_obs (nec_env (L [A 0; A 100; A 100]) (L [L [A 1; A 1; A 5]]) (L []) (L []) (L [])) (A 1)) = [5]
+  /\ mon13 (L []) (model_obs (nec_env (L [A 1; A 100; A (-1)]) (L []) (L []) (L []) (L [])) (A 1)) = [4]
+  /\ mon13 (L []) (model_obs (nec_env (L [A 1; A 100; A 100]) (L []) (L [L [L [A 1; A 2; A 0]; L []]])
+                                      (L [L [L []; A 0; L []; A 0]]) (L [])) (A 1)) = [3]
+  /\ mon13 (L []) (model_obs (nec_env (L [A 1; A 100; A 100]) (L []) (L [L [L [A 1; A 2; A 0]; L []]])
+                                      (L [L [L []; A 0; L [L [A 0; A 1; L [L [L [A 1; A 9; A 5]]; L []]]]; A 1]])
+                                      (L [A 9])) (A 1)) = [1]
+  /\ mon13 (L []) (model_obs (nec_env (L [A 1; A 100; A 100]) (L []) (L [L [L [A 1; A 2; A 2]; L []]])
+                                      (L [L [L [A 10; A 0]; A 0;
+                                             L [L [A 2; A 1; L [L []; L []]]; L [A 2; A 1; L [L [L [A 1; A 9; A 5]]; L []]]];
+                                             A 1]])
+                                      (L [A 9])) (A 1)) = [1].
+Proof.
+  exact (conj batch_needed (conj budget_needed (conj clean_needed (conj field_visited_needed field_lookup_needed)))).
+Qed.
+
+(** Non-vacuity: a well-formed environment with one Tree; the model returns the
+    ActionResult after two FindMissing batches and one tree Get. *)
+Example monitor_silent_example :
+  env_wf ok_env
+  /\ run13 ok_env = L [A 0; L [L [A 0; L [A 1; A 2]; A 0; L []]; L [A 1; A 2]; L [A 0; L [A 3; A 5]; A 0; L []]]].
+Proof. exact (conj ok_env_wf ok_env_run). Qed.
